@@ -35,6 +35,10 @@ WL_MEMBERS = [(r'^vector\|nano::tensor_t<nano::tensor_marray_storage_t, double, 
 SFW_MEMBERS = [(r'^feature\|nano::single_feature_wlearner_t', 'sfw_feature'),
                (r'^vector\|nano::single_feature_wlearner_t', 'nv_sfw_vector')]
 STUMP_CPP = 'src/wlearner/stump.cpp'
+# loop_scalar(dataset, samples, feature, op) by its contract proved in loops.h, at the ghost position: op(nv_g, nv_v) is called
+# exactly once iff the value nv_v of sample position nv_g is finite (given).  The stub text is generated per call site from
+# the lambda's current capture list (engine/hooks.py lambda_stub_hook)
+LS_BODY = 'NV_LS_RECORD(nv_a0, nv_a1, nv_a2) if (0 <= nv_g && nv_g < nv_a1->n && NV_ISFIN(nv_v)) @CALL(nv_g, nv_v);'
 
 
 def stump_fns():
@@ -43,11 +47,11 @@ def stump_fns():
     # the lambda argument of loop_scalar is not translated: the stub calls the extracted lambda with the captured
     # variables (named literally: a renamed local breaks the C compile -> undecided, never a silent pass)
     do_predict = Fn('stump_do_predict', STUMP_CPP, 'do_predict', flt='stump_wlearner_t::do_predict', self_struct='struct nv_stump',
-                    calls=WL_CALLS + [(r'^loop_scalar\|', 'nv_loop_scalar_predict({&0}, {&1}, {2}, self, &outputs, &lo, &hi)')], **common)
+                    calls=WL_CALLS, hooks=[nvhooks.lambda_stub_hook('loop_scalar', 'nv_ls_stump_predict', ['stump_predict_lambda'], LS_BODY)], **common)
     predict_lambda = Fn('stump_predict_lambda', STUMP_CPP, 'do_predict', flt='stump_wlearner_t::do_predict', lambda_index=0,
                         captures=True, self_struct='struct nv_stump', calls=WL_CALLS, **common)
     split = Fn('stump_split', STUMP_CPP, 'split', flt='stump_wlearner_t::split',
-               calls=WL_CALLS + [(r'^loop_scalar\|', 'nv_loop_scalar_split({&0}, {&1}, {2}, &cluster, &threshold)')], **common)
+               calls=WL_CALLS, hooks=[nvhooks.lambda_stub_hook('loop_scalar', 'nv_ls_stump_split', ['stump_split_lambda'], LS_BODY)], **common)
     split_lambda = Fn('stump_split_lambda', STUMP_CPP, 'split', flt='stump_wlearner_t::split', lambda_index=0, captures=True,
                       calls=WL_CALLS, **common)
     do_split = Fn('stump_do_split', STUMP_CPP, 'do_split', flt='stump_wlearner_t::do_split', self_struct='struct nv_stump',
@@ -117,6 +121,39 @@ def lambda_owner(owner_flt, owner_name):
     return sel
 
 
+def table_closure(which):
+    """the closure object do_predict / do_split hand to process(): read from the lambda's CURRENT capture list (never pinned by
+    hand): C fields of struct nv_clo_<which> (`self` first, always), the initialiser at the call of process() and the
+    argument list with which the callbacks of process() invoke the extracted lambda body"""
+    import cxx2c
+    owner = 'do_' + which
+    d = astload.find_definition(TABLE_CPP, f'table_wlearner_t::{owner}', owner)
+    lams = astload.find_lambdas(d)
+    if len(lams) != 1:
+        raise astload.ExtractionError(f'table {owner}: {len(lams)} lambdas, expected the one handed to process()')
+    P = cxx2c.Printer('closure', TABLE_TYPES)
+    fields, init, use = ['struct nv_table* self'], ['self'], ['{0}.self']
+    for c in astload.lambda_captures(lams[0]):
+        if c['this']:
+            continue
+        vt = c['var_type'].get('qualType', '').rstrip()
+        ct = P.ctype(c['var_type'])
+        if c['byref'] and not vt.endswith('&'):
+            ct += '*'
+            init.append(f'&{c["name"]}')
+        elif not c['byref'] and vt.endswith('&'):
+            raise astload.ExtractionError(f'table {owner}: by-copy capture of the reference {c["name"]}')
+        else:
+            init.append(c['name'])
+        fields.append(f'{ct} {c["name"]}')
+        use.append('{0}.' + c['name'])
+    return dict(fields='; '.join(fields) + ';', init=', '.join(init), use=use)
+
+
+def table_defines():
+    return [f'NV_CLO_{w.upper()}_FIELDS={table_closure(w)["fields"]}' for w in ('predict', 'split')]
+
+
 def table_fns(which):
     """which = 'predict' | 'split': do_predict / do_split, its lambda, and the instantiation of process<that lambda>
     with both of its callbacks (single-label, multi-label)"""
@@ -125,13 +162,13 @@ def table_fns(which):
     clo = f'struct nv_clo_{which}'
     types = [(CLOSURE, clo)] + TABLE_TYPES
     common = dict(types=types, members=TABLE_MEMBERS, hooks=[size0_hook(TABLE_CPP)])
-    caps = '&outputs, self' if which == 'predict' else '&cluster, samples'
-    opcall = (f'table_{which}_lambda({{0}}.self, {{1}}, {{2}}, {{0}}.outputs)' if which == 'predict'
-              else f'table_{which}_lambda({{1}}, {{2}}, {{0}}.cluster, {{0}}.samples)')
+    cl = table_closure(which)
+    caps = cl['init']
+    opcall = f'table_{which}_lambda({cl["use"][0]}, {{1}}, {{2}}' + ''.join(', ' + u for u in cl['use'][1:]) + ')'
     top = Fn(f'table_{owner}', TABLE_CPP, owner, flt=f'table_wlearner_t::{owner}', self_struct='struct nv_table',
              calls=TABLE_CALLS + [(r'^process\|', f'table_process_{P}({{&0}}, {{&1}}, {{2}}, {{&3}}, {{&4}}, &({clo}){{{caps}}})')], **common)
     lam = Fn(f'table_{which}_lambda', TABLE_CPP, owner, flt=f'table_wlearner_t::{owner}', lambda_index=0, captures=True,
-             self_struct='struct nv_table' if which == 'predict' else None, calls=TABLE_CALLS, **common)
+             self_struct='struct nv_table', calls=TABLE_CALLS, **common)
     sel = lambda_owner(f'table_wlearner_t::{owner}', owner)
     proc = Fn(f'table_process_{P}', TABLE_CPP, 'process', flt='process', select=sel, kinds=('FunctionDecl',),
               calls=TABLE_CALLS + [(r'^loop_sclass\|', f'nv_loop_sclass_{P}({{&0}}, {{&1}}, {{2}}, hashes, hash2tables, op)'),
@@ -238,11 +275,11 @@ def linear_fns(cls):
     for which, nlam in (('predict', 2 if cls == 'hinge' else 1), ('split', 1)):
         owner = f'do_{which}'
         flt = f'{cls}_wlearner_t::{owner}'
-        out[which] = [Fn(f'{cls}_{owner}', cpp, owner, flt=flt, hooks=[nvhooks.lambda_call_hook('loop_scalar', f'nv_ls_{cls}_{which}')], **mk())]
+        names = [f'{cls}_{which}_lambda' + (str(k) if nlam > 1 else '') for k in range(nlam)]
+        out[which] = [Fn(f'{cls}_{owner}', cpp, owner, flt=flt, hooks=[nvhooks.lambda_stub_hook('loop_scalar', f'nv_ls_{cls}_{which}', names, LS_BODY)], **mk())]
         for k in range(nlam):
             name = f'{cls}_{which}_lambda' + (str(k) if nlam > 1 else '')
-            # the affine lambdas do not capture `this`, the hinge ones do (m_threshold, m_hinge)
-            out[which].append(Fn(name, cpp, owner, flt=flt, lambda_index=k, captures=True, **mk('struct nv_lin' if cls == 'hinge' else None)))
+            out[which].append(Fn(name, cpp, owner, flt=flt, lambda_index=k, captures=True, **mk()))
         out[which].append(Fn('sfw_feature', 'src/wlearner/single.cpp', 'feature', flt='single_feature_wlearner_t::feature',
                              self_struct='struct nv_lin', types=LIN_TYPES))
     return out
@@ -511,8 +548,8 @@ def build(tier):
     f = stump_fns()
     targets.append(Target('stump_do_split', [f['do_split'], f['split'], f['split_lambda'], f['feature']], SH))
     TH = 'specs/C10/table.h'
-    targets.append(Target('table_do_predict', table_fns('predict'), TH))
-    targets.append(Target('table_do_split', table_fns('split'), TH))
+    targets.append(Target('table_do_predict', table_fns('predict'), TH, defines=table_defines()))
+    targets.append(Target('table_do_split', table_fns('split'), TH, defines=table_defines()))
     ftypes = [(r'^nano::hashes_t$|tensor_t<nano::tensor_vector_storage_t, unsigned long, 1>', 'struct nv_t1u'),
               (r'Matrix<unsigned long, -1, 1, 0.*>::Scalar$', 'uint64_t')]
     fk = dict(types=ftypes, uf_float=False, kinds=('FunctionDecl',),
